@@ -84,6 +84,12 @@ def build_attr(fields, user_where_ok=True):
         elif f.style == "alias":
             lit.append("{a%d%s}" % (f.i, sp))
             args.append("a%d = %s" % (f.i, f.name))
+        elif f.style == "shadow_expr":
+            # an alias named like the field, bound to an expression that is not an identifier: the placeholder denotes the
+            # argument, not the field, so the field's type gets no bound
+            lit.append("{%s%s}" % (f.name, sp))
+            args.append("%s = &7u8" % f.name)
+            continue
         elif f.style == "expr_bound":
             lit.append("{%d%s}" % (len(args), sp))
             args.append("&%s" % f.name)
@@ -109,7 +115,7 @@ def make_item(derive, container, named, fields, level):
     gdecl = "<%s>" % ", ".join(gens) if gens else ""
     # positional args first, then aliases: order fields so that styles produce a valid argument list
     lit, args, ubounds, model = [], [], [], set()
-    ordered = [f for f in fields if f.style in ("positional", "expr_bound")] + [f for f in fields if f.style == "alias"] + [f for f in fields if f.style == "named"]
+    ordered = [f for f in fields if f.style in ("positional", "expr_bound")] + [f for f in fields if f.style in ("alias", "shadow_expr")] + [f for f in fields if f.style == "named"]
     l2, a2, u2, m2 = build_attr(ordered)
     lit_s = " ".join(l2) if l2 else "text"
     attr_args = '"%s"%s' % (lit_s, (", " + ", ".join(a2)) if a2 else "")
@@ -211,7 +217,7 @@ def run(chk, tier):
                 form_sets = list(itertools.product(forms, repeat=n)) if n <= 2 else (
                     list(itertools.product(six, repeat=n)) if thorough else
                     [fs for fs in itertools.product(forms, repeat=n) if fs[0] in ("T", "vec", "plain", "assoc") and fs[2] in ("ref", "plain", "wrapper", "phantom")])
-                style_sets = list(itertools.product(STYLES, repeat=n))
+                style_sets = list(itertools.product(STYLES + (["shadow_expr"] if n <= 2 else []), repeat=n))
                 for fs in form_sets:
                     for ss in style_sets:
                         if all(s == "none" for s in ss) and n > 1:
